@@ -5,7 +5,7 @@ CONSTANTS
   Relays <- R2
   MaxPath = 2
   MaxPre = 3
-  MaxEv = 4
+  MaxEv = 3
   Listeners <- L0
   MaxUser = 0
   Waits <- W0
